@@ -14,6 +14,7 @@
 #include "errmsg.h"
 #include "stubs/gerr.h"
 #include "tempresult.h"
+#include "dynstr.h"
 
 static long long g_ev_int; static unsigned g_ev_flags; static int g_ev_typ; static unsigned g_ev_len; static char g_ev_chars[4];
 void EvalStrExpression(tStrComp const* pExpr, TempResult* pErg) {
@@ -37,6 +38,11 @@ static int up(int c) { return (c >= 'a' && c <= 'z') ? c - 32 : c; }
 int as_strncasecmp(char const* a, char const* b, size_t n) { size_t i; for (i = 0; i < n; i++) { int x = up((unsigned char)a[i]), y = up((unsigned char)b[i]); if (x != y) return x - y; if (!x) return 0; } return 0; }
 int as_strcasecmp(char const* a, char const* b) { return as_strncasecmp(a, b, 64); }
 size_t strmaxcpy(char* dest, char const* src, size_t Max) { size_t n = 0; if (!Max) return 0; while (src[n] && n + 1 < Max) { dest[n] = src[n]; n++; } dest[n] = 0; return n; }
+size_t as_dynstr_copy(as_dynstr_t* p_dest, as_dynstr_t const* p_src) {                                       /* dynstr.c, for non-dynamic destinations */
+    size_t n = 0; while (p_src->p_str[n] && n + 1 < p_dest->capacity) { p_dest->p_str[n] = p_src->p_str[n]; n++; } p_dest->p_str[n] = 0; return n;
+}
+int KillPostBlanks(char* s) { int n = 0, r = 0; while (n < 31 && s[n]) n++; while (n > 0 && (s[n - 1] == ' ' || s[n - 1] == '\t')) { s[--n] = 0; r++; } return r; }   /* strutil.c */
+int as_isspace(int c) { return c == ' ' || c == '\t' || c == '\n' || c == '\r' || c == '\f' || c == '\v'; }
 static int mon0(void) { return 0; }
 #define fprintf(...) mon0()
 #define printf(...) mon0()
